@@ -220,14 +220,14 @@ def run_integration(rep, tier, seed):
     g = Gen(seed + 101)
     results = []
     skipped = collections.Counter()
-    N = 60 if tier == "thorough" else 12
+    N = 90 if tier == "thorough" else 30
     old = signal.signal(signal.SIGALRM, handler)
     try:
-        for case0 in load_corpus("C01_integration") + [None] * N:
+        for k, case0 in enumerate(load_corpus("C01_integration") + [None] * N):
             case = case0 or C.gen_case(g, "convex_qp", None, scaling=False)
             case["integration"] = True
             if case0 is None:
-                case["cfg"] = {"iteration_limit": 100, "rho": g.rng.choice([1e-2, 1.0])}
+                case["cfg"] = {"iteration_limit": 100, "rho": g.rng.choice([1e-2, 1.0]) if k < 14 else g.rng.choice([1e-2, 1.0, 100.0])}
             signal.alarm(6)
             try:
                 rec = C.run(case)
